@@ -63,8 +63,10 @@ PROPS = {
     },
     "C04": {
         "level": EXPL,
-        "plan": [{"engine": "shipsim1", "timeout": T_SIM}, {"engine": "shipsim2", "timeout": T_SIM}],
-        "rule": "same histories as C01 plus a transport found dead at every single write index of every cooperative run; the monitor compares every "
+        "plan": [{"engine": "shipsim1", "perturb": True, "perturb_mode": "1", "perturb_scale": 0.5,
+                  "perturb_focus": "handshakeHello_Pending,setHandshakeTimer,stopHandshakeTimer,CloseConnection,endHandshakeWithError,closeDataConnectionAndReport", "timeout": T_SIM},
+                 {"engine": "shipsim2", "timeout": T_SIM}],
+        "rule": "same histories as C01 plus a transport found dead at every single write index of every cooperative run, a frame handed over after a local close (read by the pump just before it), and operations issued at the very instant a timer fires (sleeps that end exactly at the 10 s / 60 s / 66 s / waiting-30 s boundaries, next operation in parallel with the timeout handling; also on the perturbed build); the monitor compares every "
                 "reported transition with the role's specification graph (DESIGN.md appendix A) and checks finality after a terminal report (no progress "
                 "state, only closing frames, timer flag clear at quiescent snapshots, transport closed 2 virtual seconds later); distinct = edges, "
                 "(role,state,input class) pairs, (terminal outcome x later event) pairs observed",
@@ -83,11 +85,12 @@ PROPS = {
     },
     "C08": {
         "level": EXPL,
-        "plan": [{"engine": "shipsim1", "timeout": T_SIM}, {"engine": "wsconn", "timeout": T_SIM}, {"engine": "mdnssim", "timeout": T_SIM}],
+        "plan": [{"engine": "shipsim1", "perturb": True, "perturb_mode": "1", "perturb_scale": 0.5, "perturb_focus": "setHandshakeTimer,stopHandshakeTimer,setState", "timeout": T_SIM},
+                 {"engine": "wsconn", "timeout": T_SIM}, {"engine": "mdnssim", "timeout": T_SIM}],
         "rule": "B1 histories (see C01): in every handshake state reachable by a cooperative prefix, both roles, each input of the alphabet (valid messages of "
                 "every phase, field removed/duplicated/ill-typed, empty lists, huge numbers, deep nesting, whitespace variants, NUL padding, wrong header bytes) "
                 "and byte-level mutations/arbitrary bytes; a panic is recovered at the entry point (or kills the child process, attributed by the scenario log), "
-                "a call that never returns is decided by the in-process watchdog from two goroutine dumps; wsconn: 59 hostile websocket frames (every opcode, "
+                "a call that never returns is decided by the in-process watchdog from two goroutine dumps; plus the receive loop running in parallel with firing timers (waiting values that arm timers of 0-100 ms) and application goroutines in one bubble (also on the perturbed build, focus on the timer functions); wsconn: 59 hostile websocket frames (every opcode, "
                 "reserved bits, wrong masking, fragments, length lies, oversize, text, close codes) on both sides of the handshake, afterwards the connection must be closed-and-released "
                 "or still deliver; mdnssim: generated TXT maps / host names / address lists (nil IPs) / ports -1..70000 / removes handed to the resolver callback, afterwards only "
                 "valid records may be present; distinct = (role, state, input class) pairs, frame kinds, TXT classes",
@@ -167,8 +170,8 @@ PROPS = {
     },
     "C05": {
         "level": EXPL,
-        "plan": [{"engine": "hubnet", "perturb": True, "perturb_mode": "sleep", "perturb_scale": 0.5, "timeout": {"quick": 900, "thorough": 5400}, "shards": 12}],
-        "rule": "real hubs on loopback TLS/websocket ports, each with the real MdnsManager behind a fake mDNS bus, per-(dialler,target) TCP proxies, recording echoing applications; dial back-off table set to 0-1/1-2/2-3 s; two mutually registering hubs: registration before/after Start, simultaneous registration (double connection), one-sided mDNS visibility, then 0-4 disturbances (DisconnectSKI by either or both sides, TCP cut, peer restart with same certificate and port, mDNS disappear/reappear) with seeded gaps; bounded progress oracle: within 60 s after the last disturbance both registries hold exactly one open completed connection to the other, both pairing details are 'completed', exactly one live TCP connection, stable for 1.2 s with no new dial, and a uniquely numbered payload echoes in both directions; a run still dialling at the watchdog is inconclusive; distinct = (registration timing, simultaneity, visibility, disturbance list)",
+        "plan": [{"engine": "hubnet", "perturb": True, "perturb_mode": "sleep", "perturb_scale": 0.5, "perturb_focus": "ServeHTTP,connectFoundService,registerConnectionPreventingDouble,HandleConnectionClosed,keepThisConnection", "pause_before": ["h.registerConnectionPreventingDouble(shipConnection"], "pause_us": 8000, "timeout": {"quick": 900, "thorough": 5400}, "shards": 12}],
+        "rule": "real hubs on loopback TLS/websocket ports, each with the real MdnsManager behind a fake mDNS bus, per-(dialler,target) TCP proxies, recording echoing applications; dial back-off table set to 0-1/1-2/2-3 s; two mutually registering hubs: registration before/after Start, simultaneous registration (double connection), one-sided mDNS visibility, a one-sided phase (A registered and dials, the request waits for B's user, a cut / disconnect / restart hits that connection, then B registers), a cut 0-12 ms after the second TCP connection of a simultaneous start appeared, then 0-4 disturbances (DisconnectSKI by either or both sides, TCP cut, a silent network with a disconnect into it followed by a reset, peer restart with same certificate and port, mDNS disappear/reappear) with seeded gaps, then 0-8 further close/reconnect cycles; bounded progress oracle: within 60 s after the last disturbance both registries hold exactly one open completed connection to the other, both pairing details are 'completed', exactly one live TCP connection, stable for 1.2 s with no new dial, and a uniquely numbered payload echoes in both directions; a run still dialling at the watchdog is inconclusive; distinct = (registration timing, simultaneity, visibility, disturbance list)",
         "assumptions": ['two hubs, loopback only; liveness decided as bounded progress (60 s watchdog)', 'peer restart = Shutdown + new hub in the same process'],
         "floors": {'evaluations': 30, 'classes': 20, 'counters': {'hubnet:converged': 25}},
     },
@@ -208,7 +211,7 @@ PROPS = {
     },
     "C11": {
         "level": EXPL,
-        "plan": [{"engine": "shipsim2", "timeout": T_SIM}, {"engine": "shipsim1", "timeout": T_SIM}, {"engine": "hubnet", "perturb": True, "perturb_mode": "sleep", "perturb_scale": 1.0, "timeout": {"quick": 900, "thorough": 5400}, "shards": 12}],
+        "plan": [{"engine": "shipsim2", "timeout": T_SIM}, {"engine": "shipsim1", "timeout": T_SIM}, {"engine": "hubnet", "perturb": True, "perturb_mode": "sleep", "perturb_scale": 1.0, "perturb_focus": "ServeHTTP,connectFoundService,registerConnectionPreventingDouble,HandleConnectionClosed,keepThisConnection", "pause_before": ["h.registerConnectionPreventingDouble(shipConnection"], "pause_us": 8000, "timeout": {"quick": 900, "thorough": 5400}, "shards": 12}],
         "rule": "connection level (bubbles): every close cause (local graceful/unsafe close, unregister, peer announce/confirm, transport error, handshake error, abort, application write after the peer closed) and "
                 "ordered pairs of causes at virtual offsets 0/1 ms/499/500/501 ms/1 s on two real endpoints, plus all one-endpoint histories: HandleConnectionClosed exactly once per ended connection, "
                 "never for an open one; a local operation that never returns is a violation (watchdog); hub level (real hubs): pair scenarios with disconnects from either/both sides, cuts, restarts, double connections: "
